@@ -413,34 +413,60 @@ static uint32_t word_le(const std::string& d, size_t k) {
       static_cast<uint32_t>(static_cast<unsigned char>(d[4 * k + 2])) << 16 | static_cast<uint32_t>(static_cast<unsigned char>(d[4 * k + 3])) << 24;
 }
 static uint32_t word_be(const std::string& d, size_t k) { return __builtin_bswap32(word_le(d, k)); }
+// The state words are public members in /repo (MD5: a0..d0, SHA-1 / SHA-256: h[]) but no property names them: a tree that keeps them
+// elsewhere (an array for MD5 too, a base class, private) is handled by whichever form compiles; when none does the subcheck has no
+// way to choose a digest value and its cases are excluded (counted), not failed.
+template <typename H>
+static bool set_words_le4(H& h, const std::string& dg) {
+  if constexpr (requires { h.a0 = 0u; h.b0 = 0u; h.c0 = 0u; h.d0 = 0u; }) {
+    h.a0 = word_le(dg, 0);
+    h.b0 = word_le(dg, 1);
+    h.c0 = word_le(dg, 2);
+    h.d0 = word_le(dg, 3);
+    return true;
+  } else if constexpr (requires { h.h[3] = 0u; }) {
+    for (size_t k = 0; k < 4; k++) h.h[k] = word_le(dg, k);
+    return true;
+  } else {
+    return false;
+  }
+}
+template <typename H>
+static bool set_words_be(H& h, const std::string& dg, size_t n) {
+  if constexpr (requires { h.h[0] = 0u; }) {
+    for (size_t k = 0; k < n; k++) h.h[k] = word_be(dg, k);
+    return true;
+  } else {
+    return false;
+  }
+}
+
 static void run_render(const Case& c) {
   uint64_t algo = c.u(0), ambient = c.u(1);
   const std::string& dg = c.str(0);
   if (algo > 2 || ambient >= kAmbientModes || dg.size() != kDigestLen[algo]) throw std::logic_error("C10: render case outside the domain");
   const char* name = kAlgoNames[algo];
+  bool settable = true;
   auto render = [&](uint64_t amb, std::string& bin, std::string& hx) {
     Ambient guard(amb);
     switch (algo) {
       case 0: {
         phosg::MD5 h("abc", 3);
-        h.a0 = word_le(dg, 0);
-        h.b0 = word_le(dg, 1);
-        h.c0 = word_le(dg, 2);
-        h.d0 = word_le(dg, 3);
+        settable = set_words_le4(h, dg);
         bin = h.bin();
         hx = h.hex();
         break;
       }
       case 1: {
         phosg::SHA1 h("abc", 3);
-        for (size_t k = 0; k < 5; k++) h.h[k] = word_be(dg, k);
+        settable = set_words_be(h, dg, 5);
         bin = h.bin();
         hx = h.hex();
         break;
       }
       default: {
         phosg::SHA256 h("abc", 3);
-        for (size_t k = 0; k < 8; k++) h.h[k] = word_be(dg, k);
+        settable = set_words_be(h, dg, 8);
         bin = h.bin();
         hx = h.hex();
       }
@@ -450,6 +476,10 @@ static void run_render(const Case& c) {
   for (uint64_t amb : {uint64_t(0), ambient}) {
     std::string bin, hx;
     render(amb, bin, hx);
+    if (!settable) {
+      ctx().exclude(cat("render: the state words of ", name, " are not assignable members in this tree"));
+      return;
+    }
     std::string sfx = amb ? cat(":", kAmbientNames[amb]) : std::string();
     VCHECK(bin == dg, cat("render-bin:", name, sfx), name, "::bin() of the state ", lower_hex(dg), " is ", lower_hex(bin));
     VCHECK(hx.size() == 2 * dg.size() && to_lower(hx) == lower_hex(dg), cat("render-hex:", name, sfx), name, "::hex() of the digest value ", lower_hex(dg), " is '", hx, "'");
